@@ -115,8 +115,19 @@ fn run_variant(am: &mut Amortised, case: &Case, base: &Baseline, pos: usize, ext
             if log.ir_error.is_some() {
                 res.count("variant_verifier_failure_see_C04");
             } else if log.invoked && log.current.is_none() {
-                // all passes ran and verified, the backend rejected what the passes produced
-                res.violation(format!("backend-rejects-variant:{:?}", extra.iter().collect::<std::collections::BTreeSet<_>>()), format!("the baseline pipeline is accepted but with passes {extra:?} inserted at {pos} the backend rejects the program"), replay);
+                // all passes ran and verified, the backend rejected what the passes produced:
+                // compile once more under the same pass list with the harness's own handler to
+                // learn the backend's message (it names the class of the failure)
+                let dir = am.scratch_dir();
+                let _ = write_pkg(&dir, "gencase", &case.src, true);
+                let cfg2 = HookCfg { insert: Some((pos, extra.to_vec())), ..Default::default() };
+                let (d, _) = with_hook(cfg2, false, || catch(AssertUnwindSafe(|| am.diagnose_dir(&dir, Profile::Debug))));
+                let _ = std::fs::remove_dir_all(&dir);
+                let msg = match d {
+                    Ok(Ok((errs, _))) => errs.first().map(|e| format!("{e}")).unwrap_or_else(|| "no diagnostic".into()),
+                    _ => "diagnostics unavailable".into(),
+                };
+                res.violation(format!("backend-rejects-variant:{}", bucket(&msg.chars().take(90).collect::<String>())), format!("the baseline pipeline is accepted but with passes {extra:?} inserted at {pos} the backend rejects the program: {}", msg.chars().take(200).collect::<String>()), replay);
             } else {
                 res.count("variant_not_compiled_other");
             }
